@@ -26,12 +26,13 @@ import (
 )
 
 type rArgs struct {
-	Store string  `json:"store"`
-	Path  string  `json:"path"`
-	Vals  []Value `json:"vals"`
-	Ops   string  `json:"ops"`
-	Pin   bool    `json:"pin"`
-	Eps   int     `json:"eps"`
+	Store  string  `json:"store"`
+	Path   string  `json:"path"`
+	Vals   []Value `json:"vals"`
+	Ops    string  `json:"ops"`
+	Pin    bool    `json:"pin"`
+	Eps    int     `json:"eps"`
+	Locked bool    `json:"locked,omitempty"`
 }
 
 var pinTime = time.Date(2021, 3, 4, 5, 6, 7, 0, time.UTC)
@@ -45,6 +46,7 @@ func rereadChild() {
 		fmt.Fprintln(os.Stderr, "child: bad args:", err)
 		os.Exit(3)
 	}
+	lockCalls = a.Locked
 	vals := make([]interface{}, len(a.Vals))
 	for i, v := range a.Vals {
 		vals[i] = build(a.Store, v)
@@ -143,7 +145,7 @@ func runReread(c Case, dir string) Obs {
 	if eps < 1 {
 		eps = 1
 	}
-	b, _ := json.Marshal(rArgs{Store: c.Store, Path: path, Vals: c.Vals, Ops: c.Ops, Pin: c.Pin, Eps: eps})
+	b, _ := json.Marshal(rArgs{Store: c.Store, Path: path, Vals: c.Vals, Ops: c.Ops, Pin: c.Pin, Eps: eps, Locked: c.Locked})
 	self, err := os.Executable()
 	if err != nil {
 		return Obs{Err: err.Error()}
@@ -342,7 +344,7 @@ func genRereads(r *vgen.Rng, thorough bool) []Case {
 				if r.Bool() {
 					vals = append(vals, sameLen(r, st, vals[1]))
 				}
-				c := Case{Kind: "reread", Store: st}
+				c := Case{Kind: "reread", Store: st, Locked: st != "topology" && variant%2 == 0}
 				n := rounds[st]
 				var sb strings.Builder
 				cur := -1
